@@ -108,3 +108,63 @@ func verifC17(n, slen int) {
 
 func VerifHarness_C17_files2() { verifC17(2, 1) }
 func VerifHarness_C17_files3() { verifC17(3, 1) }
+
+// verifC17Long: long plans. Every change has exactly one concrete reverse
+// statement (one of them carries a symbolic byte); the number of changes is a
+// choice over lengths around the thresholds of Go's sort and slice algorithms.
+func verifC17Long() {
+	n := []int{1, 5, 12, 13, 14, 20, 33}[verifChoice("changes", 7)]
+	p := &migrate.Plan{Version: "1", Name: "n"}
+	var want []string
+	sym := verifString("r", 1)
+	verifAssume(sym[0] >= 'a' && sym[0] <= 'z')
+	for i := 0; i < n; i++ {
+		r := fmt.Sprintf("DOWN %d", i)
+		if i == n/2 {
+			r += " " + sym
+		}
+		p.Changes = append(p.Changes, &migrate.Change{Cmd: fmt.Sprintf("UP %d", i), Reverse: r})
+	}
+	for i := n - 1; i >= 0; i-- {
+		want = append(want, p.Changes[i].Reverse.(string))
+	}
+	verifAssert(sqlx.SetReversible(p) == nil && p.Reversible, "the plan is reversible")
+	fs := []migrate.Formatter{GolangMigrateFormatter, GooseFormatter, FlywayFormatter, DBMateFormatter}
+	fi := verifChoice("formatter", len(fs))
+	files, err := fs[fi].Format(p)
+	verifAssert(err == nil, "the plan is formatted")
+	if err != nil {
+		return
+	}
+	var down string
+	switch fi {
+	case 0, 2:
+		verifAssert(len(files) == 2, "an up and a down file are written")
+		if len(files) != 2 {
+			return
+		}
+		down = string(files[1].Bytes())
+	case 1:
+		_, down, _ = strings.Cut(string(files[0].Bytes()), "-- +goose Down\n")
+	case 3:
+		_, down, _ = strings.Cut(string(files[0].Bytes()), "-- migrate:down\n")
+	}
+	stmts, err := migrate.Stmts(down)
+	verifAssert(err == nil, "the down section scans")
+	if err != nil {
+		return
+	}
+	verifReach("reversible")
+	verifAssert(len(stmts) == len(want), "the down file holds exactly the reverse statements of the plan")
+	for i := range stmts {
+		if i < len(want) {
+			verifAssert(stmts[i].Text == want[i]+";", "reverse statements appear in reverse change order, unchanged")
+		}
+	}
+	// the plan itself is not reordered by formatting
+	for i, c := range p.Changes {
+		verifAssert(c.Cmd == fmt.Sprintf("UP %d", i), "formatting leaves the plan's changes in place")
+	}
+}
+
+func VerifHarness_C17_long() { verifC17Long() }
